@@ -21,22 +21,22 @@ CLAIMS = {
     "C07": dict(
         text="Verus proves: PriorityQueue is FIFO among equal keys (pq); scheduling inserts exactly one entry keyed (deadline, origin) (sched); a step puts all live same-(time, origin) entries into one task in queue order (sim); SeqFuture polls its futures strictly in push order (seqfut).",
         note="A-exec; origin ids of Scheduler/Context wrappers are not under contract; mailbox FIFO is C12",
-        ref="DESIGN.md §5 C07", tech=TECH_V + "; bounded executable stand-in (xsim) as counterexample generator and fallback, labelled bounded"),
+        ref="DESIGN.md §5 C07", tech=TECH_V + "; bounded executable stand-ins (xsim, xpq) as counterexample generators and fallback, labelled bounded"),
     "C08": dict(
         text="Verus proves for all five GlobalScheduler::schedule_*_from: accepted iff deadline > now (read inside the critical section) and period non-zero, rejection has no effect, acceptance queues exactly the request; and termination (decreases clauses) of every loop of the stepping functions (units sched, sim). Monitor pass (simmon, schedmon): with the queue and the time havocked at every lock acquisition, every critical section re-establishes `queue sorted, all deadlines > time, no zero period` and the time is only written under the queue lock and never decreases.",
         note="sequentialised functional pass + monitor pass (units simmon, schedmon): queue havocked at every lock acquisition, invariant re-established at every release, time written only under the lock - valid for every interleaving of threads that follow the same lock protocol; stubs assumed to terminate; Mutex gives mutual exclusion",
-        ref="DESIGN.md §5 C08", tech=TECH_V + "; bounded executable stand-in (xsim) as counterexample generator and fallback, labelled bounded"),
+        ref="DESIGN.md §5 C08", tech=TECH_V + "; bounded executable stand-ins (xsim, xsched) as counterexample generators and fallback, labelled bounded"),
     "C09": dict(
         text="Verus proves that a step executes no entry found cancelled, discards cancelled heads without re-inserting periodic ones, leaves every other entry untouched, and that a keyed scheduling call returns the key observed by the queued action (units sim, sched).",
-        note="the re-check of the flag inside the model (async send_keyed_event) is not covered; Kani (complete, loop-free) proves that ActionKey clones / AutoActionKey / the keyed actions and their next occurrences observe one shared flag",
-        ref="DESIGN.md §5 C09", tech=TECH_VK + "; bounded executable stand-in (xsim) as counterexample generator"),
+        note="the re-check of the flag inside the model (async send_keyed_event) is outside Verus; it is exercised by the bounded stand-in xsched only (real closure against a delivering stub); Kani (complete, loop-free) proves that ActionKey clones / AutoActionKey / the keyed actions and their next occurrences observe one shared flag",
+        ref="DESIGN.md §5 C09", tech=TECH_VK + "; bounded executable stand-ins (xsim, xsched) as counterexample generators, labelled bounded"),
     "C10": dict(
         text="Verus proves that every executed periodic entry (time t, period p) has exactly one successor queued at t + p in the same series with the same period, non-periodic and cancelled ones none, and that schedule_*periodic* queue the requested period (units sim, sched).",
         note="tai_time addition assumed exact; Kani (complete, all Durations) proves that {Periodic,KeyedPeriodic}Action::next return the stored period and Once actions have no next",
-        ref="DESIGN.md §5 C10", tech=TECH_VK + "; bounded executable stand-in (xsim) as counterexample generator"),
+        ref="DESIGN.md §5 C10", tech=TECH_VK + "; bounded executable stand-ins (xsim, xsched) as counterexample generators, labelled bounded"),
     "C11": dict(
         text="Verus proves the mapping of every ExecutorError value by Simulation::run (Timeout, Panic with model name and payload, NoRecipient for SendError payloads), that every fatal error sets the terminated flag, and that step/step_until/process on a terminated simulation return Terminated without moving the time or entering the executor (unit sim); the ModelId given to each model task indexes that model's own qualified name (unit reg).",
-        note="that the executors produce the right ExecutorError (catch_unwind, CURRENT_MODEL_ID, timeout thread) is not decided",
+        note="that the executors produce the right ExecutorError (catch_unwind, CURRENT_MODEL_ID, timeout thread, message counters) is not decided; the executor stub may become unusable after a failed run (finding F6), so every public operation must check is_terminated before touching it",
         ref="DESIGN.md §5 C11", tech=TECH_V + "; bounded executable stand-in (xsim) as counterexample generator and fallback, labelled bounded"),
     "C12": dict(
         text="Kani proves, per capacity (1,2 quick; 1..5 thorough) and for every representation-invariant-satisfying state (any sequence count, fill level, open/closed) - i.e. for histories of any length - the sequential contracts of Queue::{push,pop + MessageBorrow::drop,close,len,next_queue_pos}: never more than capacity messages, FIFO, each message exactly once, len exact, Full only when full, after close pushes fail and accepted messages stay receivable. The concurrency half of the property (linearizability under multi-producer interleavings, no lost wake-ups in channel.rs) is NOT decided.",
@@ -46,18 +46,22 @@ CLAIMS = {
         text="Only the second sentence is decided: Verus proves that Output::{connect, connect_sink} and Requestor::connect add exactly one connection to the value shared by all clones (CachedRwLock::write) and that Output::send / Requestor::send broadcast over a copy synchronised with that shared value (unit ports); Kani proves (loop-free, all u32 values) the CachedRwLock contract this rests on: a value written through one CachedRwLock clone is what every clone's next synchronised access returns, scratchpad edits never reach the shared value, and later clones start synchronised. Reply matching/ordering (first sentence) is NOT covered: polling the real QueryBroadcaster under Kani timed out (10 min / 6 GB).",
         note="sequential execution; map/filter_map connect variants (Fn closures) and the broadcasters themselves are not under contract; first sentence not covered",
         ref="DESIGN.md §5 C14", tech="Verus contracts on the extracted port wrappers + Kani (CBMC) complete harness appended to the real util/cached_rw_lock.rs"),
+    "C16": dict(
+        text="Partly proof, partly bounded, partly undecided. PROOF (Verus, unit reg): every model registered through SimInit::add_model or BuildContext::add_submodel, to any depth, is spawned exactly once as one task whose Context carries the qualified name parent.child (\"<unknown>\" for an empty name), and that same name is what model_names[id] and the observer list report (third sentence); (unit sim) SimInit::init enters the executor exactly once, after the time write and the synchronize, and spawns nothing itself. BOUNDED (stand-in xreg, every hierarchy of up to 4 models, depth <= 3; never counted as proved): the real async model task of simulation::add_model, run through the real SimInit::{add_model, init}, calls each model's init exactly once, during SimInit::init, before that model takes its first message, under the qualified name.",
+        note="not decided: that messages sent before a model's init are kept and processed afterwards (mailbox retention is the sequential half of C12; the wake-up path is async), and everything that depends on the executors' schedules; the async block itself is outside Verus (R8), hence the bounded stand-in",
+        ref="DESIGN.md §5 C16", tech=TECH_V + " (names, single spawn, init entered once); bounded executable stand-in (xreg) for the async model task, labelled bounded"),
     "C17": dict(
         text="Verus proves, for every capacity, buffer content and event, the contracts of EventBufferWriter::write, EventBuffer::{next,open,close,with_capacity*} and EventSlot{,Writer}::{write,next,open,close,new*} on the text cut from /repo on each run.",
         note="sequentialised (Arc/Mutex/AtomicBool elided; try_lock assumed uncontended); vstd VecDeque specs; __try_fold and the sender future not under contract",
         ref="DESIGN.md §5 C17", tech=TECH_V),
     "C18": dict(
-        text="Verus proves that a step to a new time t calls synchronize(t) exactly once after the time write and before Executor::run (a precondition of run), that OutOfSync is returned exactly when the reported lag exceeds the configured tolerance and then the executor is not entered, that step_until's final jump synchronises on the target, and that SimInit::init synchronises exactly once on the start time before the first executor run (unit sim).",
-        note="the clock is only reachable through Simulation (private field); step_until through several times: each new time synchronised exactly once (strictly increasing trace)",
+        text="Verus proves that a step to a new time t calls synchronize(t) exactly once after the time write and before Executor::run (ghost run log: the executor is entered with last-synchronised time == t), that OutOfSync is returned exactly when the reported lag exceeds the configured tolerance and then the executor is not entered, that step_until's final jump synchronises on the target, and that SimInit::init synchronises exactly once on the start time before the first executor run (unit sim).",
+        note="the clock is only reachable through Simulation (private field); step_until through several times: each new time synchronised exactly once (strictly increasing trace); under concurrent scheduling the monitor pass (simmon) proves that the clock is never synchronised ahead of the published time, hence the times passed to synchronize never decrease",
         ref="DESIGN.md §5 C18", tech=TECH_V + "; bounded executable stand-in (xsim) as counterexample generator and fallback, labelled bounded"),
     "C20": dict(
         text="Verus proves the whole of util/indexed_priority_queue.rs (39 functions: heap order on (key, epoch), slab/heap cross-indexing, extract only through the matching epoch) and util/priority_queue.rs (stable minimum extraction) for every history, generic key type.",
         note="K's Ord is a total preorder obeying its spec; std BinaryHeap contract assumed; derive(PartialOrd) spec generated from the declared field order; panics are divergence",
-        ref="DESIGN.md §5 C20", tech=TECH_V),
+        ref="DESIGN.md §5 C20", tech=TECH_V + "; bounded executable stand-in (xpq: both real files compiled as they stand, every operation sequence up to the bound) as counterexample generator and fallback, labelled bounded"),
 }
 
 NA = {
@@ -67,7 +71,6 @@ NA = {
     "C05": "reduces to the single-poller guarantee of the unsafe task state machine under concurrent wakers",
     "C13": "unsafe task state machine; interleavings under the C11 memory model; a sequential bounded Kani run did not finish in 28 min",
     "C15": "tearing/staleness exist only in concurrent executions under the C11 model; a sequential contract is vacuous",
-    "C16": "guaranteed by a type-state and an async block on the executor; Verus rejects async, Kani cannot execute the executor",
     "C19": "thread joins and cancellation of mutually waking unsafe tasks",
 }
 
